@@ -323,6 +323,8 @@ def rule_A5(ctx) -> None:
             else:
                 ctx.inconclusive("A5", f"{m}:sentinel-never-returned", "delegating __anext__ without a recognisable end-of-stream test", mod.loc(fn))
             continue
+        from ..expand import split_conditional_returns
+        fn = split_conditional_returns(fn)
         g = CFG(fn, implicit_exc=False)
         tests = [nd for nd in g.nodes if nd.kind == "test" and isinstance(nd.stmt, ast.If) and isinstance(nd.stmt.test, ast.Compare)
                  and any(isinstance(c, ast.Attribute) and c.attr == s for c in [nd.stmt.test.left] + nd.stmt.test.comparators)]
@@ -331,8 +333,13 @@ def rule_A5(ctx) -> None:
         if not gets:
             raise AnalysisError(f"{m}: awaited queue.get() assignment not found")
         var = gets[0].targets[0].id if isinstance(gets[0].targets[0], ast.Name) else None
+        # plain copies of the dequeued value (x = var) denote it as well
+        vars_ = {var}
+        for _ in range(3):
+            vars_ |= {st.targets[0].id for st in ast.walk(fn) if isinstance(st, ast.Assign) and len(st.targets) == 1 and isinstance(st.targets[0], ast.Name)
+                      and isinstance(st.value, ast.Name) and st.value.id in vars_}
         rets = [nd for nd in g.nodes if nd.kind == "stmt" and isinstance(nd.stmt, ast.Return) and nd.stmt.value is not None and
-                isinstance(nd.stmt.value, ast.Name) and nd.stmt.value.id == var]
+                isinstance(nd.stmt.value, ast.Name) and nd.stmt.value.id in vars_]
         if not tests:
             ctx.refuted("A5", name, "no-test", mod.loc(fn), f"{m}() returns what it got from the queue without filtering the flush sentinel",
                         "blocked receiver + close(): receiver returns the private sentinel object")
@@ -434,7 +441,16 @@ def rule_A9(ctx) -> None:
     for mname, fns in mod.methods(CLS).items():
         for fn in fns:
             awaited = {id(x.value) for x in ast.walk(fn) if isinstance(x, ast.Await)}
+            # local names bound to the queue's put / put_nowait
+            bound = {st.targets[0].id: st.value.attr for st in ast.walk(fn) if isinstance(st, ast.Assign) and len(st.targets) == 1 and isinstance(st.targets[0], ast.Name)
+                     and isinstance(st.value, ast.Attribute) and st.value.attr in ("put", "put_nowait") and "_queue" in ast.unparse(st.value.value)}
             for c in ast.walk(fn):
+                if isinstance(c, ast.Call) and isinstance(c.func, ast.Name) and c.func.id in bound:
+                    n += 1
+                    if bound[c.func.id] == "put_nowait":
+                        bad.append((mname, c, "put_nowait"))
+                    elif id(c) not in awaited:
+                        bad.append((mname, c, "put not awaited"))
                 if isinstance(c, ast.Call) and isinstance(c.func, ast.Attribute) and "_queue" in ast.unparse(c.func.value):
                     if c.func.attr == "put_nowait":
                         bad.append((mname, c, "put_nowait"))
@@ -482,7 +498,7 @@ def rule_A10(ctx) -> None:
             b = {A(S, "_flushed"): False, A(S, "_waiting_receivers"): w,
                  ("call", A(A(S, "_queue"), "qsize"), (), ()): q, ("call", A(A(S, "_queue"), "empty"), (), ()): q == 0,
                  ("call", A(A(S, "_queue"), "full"), (), ()): False}
-            paths = Interp(mod, bindings=b).run(fn)
+            paths = Interp(mod, bindings=b, concrete_while=True).run(fn)
             ctx.count(len(paths))
             for p in paths:
                 if p.outcome == "raise":
@@ -490,11 +506,13 @@ def rule_A10(ctx) -> None:
                 n += 1
                 count = 0
                 undecided = False
-                loops = [e for e in p.events if e.kind == "loop"]
+                loops = [e for e in p.events if e.kind == "loop" and not (isinstance(e.data, tuple) and e.data and e.data[0] == "while!")]
                 puts = [e for e in p.events if e.kind == "call" and dotted(e.data[1]).endswith(("put", "put_nowait"))]
                 for e in puts:
-                    if not e.loops:
+                    # straight-line puts and those of concretely executed while iterations count one each
+                    if all(isinstance(l, tuple) and l and l[0] == "while!" for l in e.loops):
                         count += 1
+                puts = [e for e in puts if not all(isinstance(l, tuple) and l and l[0] == "while!" for l in e.loops)]
                 for lp in loops:
                     inner = [e for e in puts if e.loops]
                     if not inner:
